@@ -1,4 +1,385 @@
+//! jlsim — deterministic simulation workers for json-logic-rs.
+//!
+//!   jlsim e1 --seed S --tier quick|thorough --worker w --workers W --seconds N [--max-runs M] --out FILE --replay-dir DIR
+//!   jlsim e2 ...                     (process-boundary engine, see e2.rs)
+//!   jlsim replay FILE                re-execute a replay file in this fresh process; exit 1 if it still fails
+//!   jlsim distinct FILE...           count distinct u64s over sorted binary files
+//!
+//! Exit codes: 0 ok, 1 violation (only `replay`), 2 harness error.
+
+mod ambient;
+mod e1;
+mod e2;
+mod gen;
+mod hooks;
+mod ops;
+mod oracle;
+mod prng;
+mod sched;
+mod shrink;
+
+use serde_json::{json, Value};
+use std::collections::{BTreeMap, BTreeSet};
+use std::sync::atomic::Ordering;
+use std::time::Instant;
+
+pub struct Args {
+    map: BTreeMap<String, String>,
+    pub pos: Vec<String>,
+}
+impl Args {
+    fn parse(argv: &[String]) -> Args {
+        let mut map = BTreeMap::new();
+        let mut pos = Vec::new();
+        let mut i = 0;
+        while i < argv.len() {
+            if let Some(k) = argv[i].strip_prefix("--") {
+                if i + 1 < argv.len() && !argv[i + 1].starts_with("--") {
+                    map.insert(k.to_string(), argv[i + 1].clone());
+                    i += 2;
+                } else {
+                    map.insert(k.to_string(), "1".into());
+                    i += 1;
+                }
+            } else {
+                pos.push(argv[i].clone());
+                i += 1;
+            }
+        }
+        Args { map, pos }
+    }
+    pub fn u64(&self, k: &str, d: u64) -> u64 {
+        self.map.get(k).and_then(|v| v.parse().ok()).unwrap_or(d)
+    }
+    pub fn f64(&self, k: &str, d: f64) -> f64 {
+        self.map.get(k).and_then(|v| v.parse().ok()).unwrap_or(d)
+    }
+    pub fn str(&self, k: &str, d: &str) -> String {
+        self.map.get(k).cloned().unwrap_or_else(|| d.to_string())
+    }
+    pub fn has(&self, k: &str) -> bool {
+        self.map.contains_key(k)
+    }
+}
+
+pub fn tier_id(t: &str) -> u64 {
+    if t == "thorough" {
+        2
+    } else {
+        1
+    }
+}
+
+fn save_diag_fd() {
+    let fd = unsafe { libc::fcntl(2, libc::F_DUPFD_CLOEXEC, 100) };
+    if fd >= 0 {
+        hooks::DIAG_FD.store(fd, Ordering::Relaxed);
+    }
+}
+
+fn bump(m: &mut BTreeMap<String, u64>, k: &str, by: u64) {
+    *m.entry(k.to_string()).or_insert(0) += by;
+}
+
+fn e1_main(a: &Args) -> i32 {
+    let seed = a.u64("seed", 1);
+    let tier = a.str("tier", "quick");
+    let worker = a.u64("worker", 0);
+    let workers = a.u64("workers", 1).max(1);
+    let seconds = a.f64("seconds", 10.0);
+    let max_runs = a.u64("max-runs", u64::MAX);
+    let first = a.u64("first-run", 0);
+    let out_path = a.str("out", "/dev/stdout");
+    let replay_dir = a.str("replay-dir", ".");
+    let det_every = a.u64("determinism-every", 0);
+    let max_shrunk = a.u64("max-shrunk", 4);
+    let started = Instant::now();
+
+    save_diag_fd();
+    hooks::install();
+    let mut oracle = oracle::Oracle::start();
+    let corpus = gen::Corpus::load();
+    let params = e1::GenParams::for_tier(&tier);
+    let shim = ambient::Ambient::shim_present();
+
+    let mut runs = 0u64;
+    let mut sums: BTreeMap<String, u64> = BTreeMap::new();
+    let mut strategies: BTreeMap<String, u64> = BTreeMap::new();
+    let mut threads_hist: BTreeMap<String, u64> = BTreeMap::new();
+    let mut shapes: BTreeMap<String, u64> = BTreeMap::new();
+    let mut faults: BTreeMap<String, u64> = BTreeMap::new();
+    let mut probes: BTreeMap<String, u64> = BTreeMap::new();
+    let mut cells: BTreeSet<String> = BTreeSet::new();
+    let mut nontrivial: BTreeSet<u64> = BTreeSet::new();
+    let mut violations: Vec<Value> = Vec::new();
+    let mut seen_sigs: BTreeSet<String> = BTreeSet::new();
+    let mut harness_errors: Vec<String> = Vec::new();
+    let mut samples: Vec<Value> = Vec::new();
+    let mut det_checked = 0u64;
+    let mut det_mismatch = 0u64;
+    let mut shrunk = 0u64;
+
+    let mut i = first + worker;
+    while runs < max_runs && (started.elapsed().as_secs_f64() < seconds || runs == 0) {
+        let run_seed = prng::mix(seed, &[tier_id(&tier), 1, i]);
+        let run = e1::gen_run(run_seed, &params, &corpus, &mut oracle);
+        let (isos, mut found) = e1::isolate(&run, &mut oracle);
+        let (run2, isos2) = e1::without_crashers(&run, &isos);
+        let rep = if run2.total_ops() > 0 { e1::exec_in_child(&run2, &isos2) } else { e1::RunReport::default() };
+        if let Some(msg) = &rep.stalled {
+            harness_errors.push(format!("run {} (seed {:016x}): {}", i, run_seed, msg));
+            if harness_errors.len() == 1 {
+                hooks::diag(&format!("jlsim e1: stalled run: {}", msg));
+                e1::diag_run(&run2);
+            }
+            break;
+        }
+        found.extend(rep.violations.iter().cloned());
+        let mut orng = prng::Rng::new(prng::mix(run_seed, &[0x0_7ac1e]));
+        let (ov, on) = e1::oracle_level_checks(&run2, &mut orng, &mut oracle);
+        found.extend(ov);
+        bump(&mut sums, "oracle_level_checks", on);
+
+        // determinism self-check: same description, executed again, and replayed from its recorded choices
+        if det_every > 0 && runs % det_every == 0 && run2.total_ops() > 0 && rep.crashed.is_none() {
+            det_checked += 1;
+            let again = e1::exec_in_child(&run2, &isos2);
+            let mut replayed_run = run2.clone();
+            replayed_run.schedule = Some(rep.choices.clone());
+            let replayed = e1::exec_in_child(&replayed_run, &isos2);
+            if again.event_hash != rep.event_hash || replayed.event_hash != rep.event_hash {
+                det_mismatch += 1;
+                harness_errors.push(format!(
+                    "determinism: run {} (seed {:016x}) event hashes {:016x} / again {:016x} / replayed {:016x}",
+                    i, run_seed, rep.event_hash, again.event_hash, replayed.event_hash
+                ));
+            }
+        }
+
+        // statistics
+        runs += 1;
+        bump(&mut sums, "steps", rep.steps);
+        bump(&mut sums, "switches", rep.switches);
+        bump(&mut sums, "switches_in_call", rep.switches_in_call);
+        bump(&mut sums, "calls", rep.calls);
+        bump(&mut sums, "calls_ok", rep.calls_ok);
+        bump(&mut sums, "calls_err", rep.calls_err);
+        bump(&mut sums, "calls_injected", rep.calls_injected);
+        bump(&mut sums, "emits", rep.emits);
+        bump(&mut sums, "capped_runs", rep.capped as u64);
+        bump(&mut strategies, run2.strategy.name(), 1);
+        bump(&mut threads_hist, &run2.threads.len().to_string(), 1);
+        for s in run2.shape.split('+') {
+            bump(&mut shapes, s, 1);
+        }
+        for (k, v) in &rep.probes {
+            if k.ends_with("_max") {
+                let e = probes.entry(k.clone()).or_insert(0);
+                *e = (*e).max(*v);
+                if *v >= 2 {
+                    bump(&mut probes, "runs_with_two_or_more_threads_deep_in_recursion", 1);
+                }
+            } else {
+                bump(&mut probes, k, *v);
+            }
+        }
+        bump(&mut faults, "emit-fails", *rep.probes.get("emit_fault_fired").unwrap_or(&0));
+        if run2.total_ops() > 0 {
+            bump(&mut faults, "preemption-inside-a-call", rep.switches_in_call);
+            if !run2.ambient.env.is_empty() {
+                bump(&mut faults, "ambient-env-vars", 1);
+            }
+            if run2.ambient.cwd.is_some() {
+                bump(&mut faults, "ambient-cwd", 1);
+            }
+            if shim && (run2.ambient.clock_offset_s != 0 || run2.ambient.clock_step_s != 0) {
+                bump(&mut faults, "ambient-clock-skew-or-jump", 1);
+            }
+            if shim && run2.ambient.rand_seed.is_some() {
+                bump(&mut faults, "ambient-seeded-os-randomness", 1);
+            }
+            if run2.stack_kb.iter().any(|s| *s != 2048) {
+                bump(&mut faults, "caller-stack-8MiB", 1);
+            }
+            if run2.threads.iter().flatten().any(|o| o.fresh) {
+                bump(&mut faults, "operand-address-reuse", 1);
+            }
+        }
+        for c in rep.cells.iter() {
+            if cells.len() < 20000 {
+                cells.insert(c.clone());
+            }
+        }
+        let nontriv = (run2.threads.len() >= 2 && rep.switches_in_call >= 1) || rep.calls_injected >= 1 || (run2.threads.len() == 1 && rep.calls >= 2);
+        if nontriv {
+            let mut h = prng::Hasher::new();
+            for tl in &run2.threads {
+                for op in tl {
+                    h.str(&op.key());
+                    h.u64(op.fresh as u64);
+                }
+                h.str("|");
+            }
+            h.u64(rep.interleaving_hash);
+            if let Some(f) = &run2.fault {
+                h.u64(f.thread as u64 * 1000 + f.op as u64);
+                h.u64(f.emit);
+            }
+            nontrivial.insert(h.0);
+        }
+        if samples.len() < 3 && run2.threads.len() >= 2 && rep.switches_in_call >= 1 {
+            let mut r = run2.clone();
+            r.schedule = Some(rep.choices.clone());
+            samples.push(r.to_json());
+        }
+
+        // violations: minimise and persist the first few distinct ones
+        for v in found {
+            let sig = v.signature();
+            let first_of_kind = seen_sigs.insert(sig.clone());
+            if !first_of_kind {
+                continue;
+            }
+            let (min_run, min_v, execs) = if shrunk < max_shrunk && rep.crashed.is_none() {
+                shrunk += 1;
+                let mut sh = shrink::Shrinker { oracle: &mut oracle, budget: 400, executions: 0 };
+                let (r, vv) = sh.shrink(&run2, &rep.choices, &v);
+                (r, vv, sh.executions)
+            } else {
+                let mut r = run2.clone();
+                r.schedule = Some(rep.choices.clone());
+                (r, v.clone(), 0)
+            };
+            let name = format!("{}-e1-{:016x}-{}.json", min_v.property, run_seed, violations.len());
+            let path = format!("{}/{}", replay_dir, name);
+            let doc = json!({
+                "engine": "e1",
+                "property": min_v.property,
+                "violation": min_v.to_json(),
+                "original_violation": v.to_json(),
+                "verif_seed": seed, "tier": tier, "run_index": i,
+                "shrink_executions": execs,
+                "run": min_run.to_json(),
+            });
+            let _ = std::fs::write(&path, serde_json::to_string_pretty(&doc).unwrap());
+            violations.push(json!({"property": min_v.property, "class": min_v.class, "signature": min_v.signature(), "needs": min_v.needs,
+                                   "replay": path, "summary": format!("{} -> expected {} got {}", min_v.op.as_ref().map(|o| o.short()).unwrap_or_default(), min_v.expected, min_v.got)}));
+        }
+        i += workers;
+    }
+
+    // distinct non-trivial executions: sorted u64 file for the orchestrator to merge
+    let nt_path = format!("{}.nontrivial", out_path);
+    let mut bytes = Vec::with_capacity(nontrivial.len() * 8);
+    for h in &nontrivial {
+        bytes.extend_from_slice(&h.to_le_bytes());
+    }
+    let _ = std::fs::write(&nt_path, bytes);
+
+    let summary = json!({
+        "engine": "e1", "worker": worker, "runs": runs, "sums": sums, "strategies": strategies, "threads": threads_hist,
+        "shapes": shapes, "faults_fired": faults, "probes": probes, "cells": cells.iter().collect::<Vec<_>>(),
+        "determinism": {"checked": det_checked, "mismatches": det_mismatch},
+        "oracle": {"forks": oracle.forks, "queries": oracle.queries, "memo": oracle.memo_len()},
+        "nontrivial_file": nt_path, "nontrivial_local": nontrivial.len(),
+        "violations": violations, "harness_errors": harness_errors, "samples": samples,
+        "shim_present": shim,
+        "wall_s": started.elapsed().as_secs_f64(),
+    });
+    if std::fs::write(&out_path, serde_json::to_string(&summary).unwrap()).is_err() {
+        return 2;
+    }
+    if !harness_errors.is_empty() {
+        2
+    } else {
+        0
+    }
+}
+
+fn replay_main(a: &Args) -> i32 {
+    let path = match a.pos.get(1) {
+        Some(p) => p.clone(),
+        None => {
+            eprintln!("usage: jlsim replay FILE");
+            return 2;
+        }
+    };
+    let doc: Value = match std::fs::read_to_string(&path).ok().and_then(|s| serde_json::from_str(&s).ok()) {
+        Some(d) => d,
+        None => {
+            eprintln!("cannot read replay file {}", path);
+            return 2;
+        }
+    };
+    match doc.get("engine").and_then(|e| e.as_str()) {
+        Some("e1") => {
+            save_diag_fd();
+            hooks::install();
+            let mut oracle = oracle::Oracle::start();
+            let run = match doc.get("run").and_then(e1::E1Run::from_json) {
+                Some(r) => r,
+                None => {
+                    eprintln!("malformed e1 replay file");
+                    return 2;
+                }
+            };
+            let target = doc.get("violation").and_then(e1::Violation::from_json);
+            let (isos, mut found) = e1::isolate(&run, &mut oracle);
+            let (run2, isos2) = e1::without_crashers(&run, &isos);
+            let rep = if run2.total_ops() > 0 { e1::exec_in_child(&run2, &isos2) } else { e1::RunReport::default() };
+            found.extend(rep.violations.iter().cloned());
+            // oracle-level violations are re-derived from the recorded operation
+            if let Some(t) = &target {
+                if t.class == "log-is-not-identity-plus-one-line" || t.class == "isolated-result-not-stable" {
+                    found.extend(e1::recheck_oracle_level(t, &mut oracle));
+                }
+            }
+            let hit: Vec<&e1::Violation> = match &target {
+                Some(t) => found.iter().filter(|v| v.property == t.property && v.class == t.class).collect(),
+                None => found.iter().collect(),
+            };
+            println!("{}", json!({"replayed": path, "event_hash": format!("{:016x}", rep.event_hash), "violations": found.iter().map(|v| v.to_json()).collect::<Vec<_>>(), "reproduced": !hit.is_empty()}));
+            if hit.is_empty() {
+                0
+            } else {
+                1
+            }
+        }
+        Some("e2") => e2::replay(&doc, a),
+        _ => {
+            eprintln!("unknown engine in replay file");
+            2
+        }
+    }
+}
+
+fn distinct_main(a: &Args) -> i32 {
+    let mut all: Vec<u64> = Vec::new();
+    for p in &a.pos[1..] {
+        if let Ok(b) = std::fs::read(p) {
+            for c in b.chunks_exact(8) {
+                all.push(u64::from_le_bytes(c.try_into().unwrap()));
+            }
+        }
+    }
+    all.sort_unstable();
+    all.dedup();
+    println!("{}", all.len());
+    0
+}
+
 fn main() {
-    jsonlogic_rs::verif::install(None, None);
-    println!("{:?}", jsonlogic_rs::apply(&serde_json::json!({"log":[1]}), &serde_json::Value::Null));
+    let argv: Vec<String> = std::env::args().skip(1).collect();
+    let a = Args::parse(&argv);
+    let code = match a.pos.first().map(|s| s.as_str()) {
+        Some("e1") => e1_main(&a),
+        Some("e2") => e2::main(&a),
+        Some("replay") => replay_main(&a),
+        Some("distinct") => distinct_main(&a),
+        _ => {
+            eprintln!("usage: jlsim e1|e2|replay|distinct ...");
+            2
+        }
+    };
+    std::process::exit(code);
 }
